@@ -960,6 +960,9 @@ func (f *frame) applyCall(abs string, callee *ssa.Function, args, binds []*sym, 
 	f.siteAsserts("call", rel, "before", args, nil, st, reach, pos)
 	var res *sym
 	switch {
+	case abs == "fmt.Sprintf" && f.nativeSprintf(args, st, reach) != nil:
+		vc.w.assumedUsed["native model: fmt.Sprintf with a constant format of %s/%d verbs = concatenation"] = true
+		res = f.nativeSprintf(args, st, reach)
 	case c == nil && callee != nil && callee.Parent() != nil && len(callee.Blocks) > 0 && vc.depth < 3:
 		res = f.inlineCall(callee, args, binds, st, reach, rt)
 	case c != nil && c.Inline && callee != nil && len(callee.Blocks) > 0 && vc.depth < 3:
@@ -1517,4 +1520,81 @@ func (vc *FnVC) constArray(idxSort, elemSort, term string) string {
 		vc.emit(fmt.Sprintf(";;CONSTARR %s\t%s\t%s\t%s", name, idxSort, elemSort, term))
 	}
 	return name
+}
+
+
+// nativeSprintf models fmt.Sprintf(format, args...) when the format is a string literal made of plain text and
+// %s / %d / %v verbs: with exactly as many arguments as verbs, a string argument under %s or %v prints as itself and
+// an int argument under %d or %v in decimal; anything else stays unconstrained.
+func (f *frame) nativeSprintf(args []*sym, st *state, reach string) *sym {
+	vc := f.vc
+	if len(args) != 2 || !strings.HasPrefix(args[0].t, "\"") || strings.Contains(args[0].t, "\\u{") {
+		return nil
+	}
+	format := strings.ReplaceAll(args[0].t[1:len(args[0].t)-1], "\"\"", "\"")
+	var lits []string
+	var verbs []byte
+	cur := ""
+	for i := 0; i < len(format); i++ {
+		if format[i] != '%' {
+			cur += string(format[i])
+			continue
+		}
+		if i+1 >= len(format) {
+			return nil
+		}
+		switch format[i+1] {
+		case '%':
+			cur += "%"
+		case 's', 'd', 'v':
+			lits = append(lits, cur)
+			cur = ""
+			verbs = append(verbs, format[i+1])
+		default:
+			return nil
+		}
+		i++
+	}
+	lits = append(lits, cur)
+	if len(verbs) == 0 {
+		return nil
+	}
+	sl := args[1].t
+	slT, ok := args[1].typ.Underlying().(*types.Slice)
+	if !ok {
+		return nil
+	}
+	ek := vc.elemKey(slT.Elem())
+	strID := vc.w.so.typeID(types.Typ[types.String])
+	intID := vc.w.so.typeID(types.Typ[types.Int])
+	parts := []string{}
+	for i, v := range verbs {
+		if lits[i] != "" {
+			parts = append(parts, smtString(lits[i]))
+		}
+		el := vc.define("fmtarg", "Iface", fmt.Sprintf("(select (select %s (sbase %s)) (sidx %s %d))", vc.hget(st, ek), sl, sl, i))
+		other := vc.fresh("fmtother", "String")
+		asStr := fmt.Sprintf("(istr %s)", el)
+		asInt := fmt.Sprintf("(ite (>= (iint %s) 0) (str.from_int (iint %s)) (str.++ \"-\" (str.from_int (- (iint %s)))))", el, el, el)
+		var t string
+		switch v {
+		case 's':
+			t = ite(fmt.Sprintf("(= (itag %s) %d)", el, strID), asStr, other)
+		case 'd':
+			t = ite(fmt.Sprintf("(= (itag %s) %d)", el, intID), asInt, other)
+		default:
+			t = ite(fmt.Sprintf("(= (itag %s) %d)", el, strID), asStr, ite(fmt.Sprintf("(= (itag %s) %d)", el, intID), asInt, other))
+		}
+		parts = append(parts, t)
+	}
+	if lits[len(verbs)] != "" {
+		parts = append(parts, smtString(lits[len(verbs)]))
+	}
+	cat := parts[0]
+	if len(parts) > 1 {
+		cat = "(str.++ " + strings.Join(parts, " ") + ")"
+	}
+	res := vc.fresh("sprintf", "String")
+	vc.assume(reach, imp(fmt.Sprintf("(= (slen %s) %d)", sl, len(verbs)), eq(res, cat)))
+	return &sym{t: res, typ: types.Typ[types.String]}
 }
